@@ -912,6 +912,24 @@ def _apply_proj(e, proj, fn, seen, depth):
                     e = ("ovf", e)
             else:
                 e = ("field", e, name)
+        elif "as" in p and p["as"] == "Continue" and e[0] == "call" and e[1] == "core::ops::try_trait::Try::branch" and e[2] \
+                and any(a[0] == "agg" for a in (e[2][0][1] if e[2][0][0] == "phi" else (e[2][0],))):
+            # `Ok(x)?` is x: the success payload of Try::branch of a value built in place is that value's payload; the
+            # alternatives built as Err/None (or coming out of from_residual) never continue
+            outs = []
+            for alt in (e[2][0][1] if e[2][0][0] == "phi" else (e[2][0],)):
+                if alt[0] == "agg":
+                    if alt[2] in ("Ok", "Some"):
+                        outs.append(("as", alt, alt[2]))
+                elif alt[0] == "call" and alt[1].endswith("::from_residual"):
+                    continue
+                else:
+                    outs.append(("as", ("call", e[1], (alt,)) + tuple(e[3:]), "Continue"))
+            uniq = []
+            for o_ in outs:
+                if o_ not in uniq:
+                    uniq.append(o_)
+            e = NEVER if not uniq else uniq[0] if len(uniq) == 1 else ("phi", tuple(uniq))
         elif "as" in p:
             if e[0] == "agg" and isinstance(e[2], str) and e[2] != p["as"]:
                 e = NEVER       # the downcast of a value built as another variant: this definition cannot be the one read here
